@@ -29,6 +29,33 @@ CLAIMED = {
         "technique": "Coq proof (abstract group theory + kernel-computed small-curve instances) + checked model/code correspondence",
         "design": "DESIGN.md section 8 / C03, section 4.5-4.6",
     },
+    "C01": {
+        "text": "Machine-checked proof (Coq 8.16.1) about the executable model of ecmath.sign/verify and utils.der_encode_sig/der_decode_sig/sig: "
+                "for EVERY list of random draws, key in [1,n-1] and digest (any integer, incl. >= n) a returned signature has r in [1,n-1], "
+                "s in [1,n/2], verifies with the library verifier, which accepts exactly the textbook ECDSA equation, r = x(kG) mod n for a "
+                "consumed non-zero draw k, and two signatures sharing r come from draws equal up to sign (no dependence on key/message); DER "
+                "is strict per BIP66 (transcribed), minimal and decodes back for all 1 <= r,s < 2^256; the sighash suffix equals the flag in "
+                "both modes. Premise curve_facts(_x) is proved by computation on three small curves and assumed for secp256k1. Correspondence: "
+                "scripted randbelow on secp256k1 (boundary keys/digests/draws, digests solved so that s hits n/2, n/2+1, 1, n-1), OpenSSL as "
+                "independent verifier, and the Python re-targeted to the small curves over all (key, digest, nonce).",
+        "note": "PARTIAL for secp256k1: group law/primality are hypotheses (proved on small curves). sha256 arbitrary. The clause 'verifies "
+                "under compressed and uncompressed public key through sig_verify' is decided by correspondence + C14's SEC1 round trip. "
+                "Trusted: Coq kernel, extraction, harness, hashlib, OpenSSL as extra oracle.",
+        "technique": "Coq proof (group theory + modular arithmetic + DER/BIP66 lemmas) + checked model/code correspondence",
+        "design": "DESIGN.md section 8 / C01",
+    },
+    "C11": {
+        "text": "Machine-checked proof (Coq 8.16.1): for every well-formed transaction, input index, amount < 2^64, scriptCode, version, "
+                "locktime and each of the six standard sighash types, the model of bip143.witness_message (slicing the serialised inputs "
+                "exactly as the Python does) returns byte-for-byte the BIP143 preimage written from the BIP (hashPrevouts/hashSequence/"
+                "hashOutputs zeroing rules, SINGLE out of range = 32 zero bytes, selected outpoint/amount/sequence) for an arbitrary hash "
+                "function. SIGHASH constants are regenerated from the code and proved equal to the BIP's. Correspondence: full 8x8xindex"
+                "x6 product, boundaries, BIP143 vectors, implementation vs model vs spec vs an independent Python reference.",
+        "note": "Theorems are about the hand-written model of witness_message/txin/txout/outpoint; sha256 arbitrary. Non-standard sighash "
+                "bytes (outside the property) are documented as deviating. Trusted: Coq kernel, extraction, harness, hashlib.",
+        "technique": "Coq proof (refinement of the code model to a BIP143 spec) + checked model/code correspondence",
+        "design": "DESIGN.md section 8 / C11",
+    },
 }
 
 NOT_YET = {}
